@@ -504,10 +504,16 @@ where
     let lhs_change = lhs.map_cyclic({
         move |lhs_change, map| {
             let mut prev_map_mut = prev_map.borrow_mut();
+            // This closure outlives the result node if the user function handed out a per-key
+            // input node and that is still in use: then there is nothing left to add keys to or
+            // remove them from, but the per-key nodes that exist are kept up to date.
+            let result = result_weak.upgrade();
             prev_map_mut.symmetric_fold(map, &mut prev_nodes, |nodes, (key, diff)| {
                 match diff {
                     DiffElement::Unequal(_, _) => {
-                        let (node, _dep) = nodes.get(key).unwrap();
+                        let Some((node, _dep)) = nodes.get(key) else {
+                            return nodes;
+                        };
                         // if the user function ignored its input, nothing keeps the per-key
                         // node alive and there is nothing to recompute
                         if let Some(node) = node.upgrade() {
@@ -516,11 +522,15 @@ where
                         nodes
                     }
                     DiffElement::Left(_) => {
-                        let (node, dep) = nodes.remove(key).unwrap();
+                        let Some((node, dep)) = nodes.remove(key) else {
+                            return nodes;
+                        };
                         // remove_dependency will cause node's weak ref to die.
                         // so we upgrade it first.
                         let node = node.upgrade();
-                        result_weak.remove_dependency(dep);
+                        if let Some(result) = &result {
+                            result.remove_dependency(dep);
+                        }
                         let mut acc = acc.borrow_mut();
                         acc.remove(key);
                         // Invalidate does have to happen after remove_dependency.
@@ -530,6 +540,9 @@ where
                         nodes
                     }
                     DiffElement::Right(_) => {
+                        let Some(result) = &result else {
+                            return nodes;
+                        };
                         let key = key.clone();
                         let node = Node::<V>::new(&state, {
                             let key_ = key.clone();
@@ -545,7 +558,7 @@ where
                         let lhs_change = lhs_change.upgrade().unwrap();
                         node.add_dependency(&lhs_change);
                         let mapped: Incr<O::Output> = f.call_fn(&key, node.watch());
-                        let user_function_dep: Dependency<O::Output> = result_weak
+                        let user_function_dep: Dependency<O::Output> = result
                             .add_dependency_with(&mapped, {
                                 let key = key.clone();
                                 let on_inner_change = on_inner_change.clone();
